@@ -45,7 +45,7 @@ def run(pid, ctx):
 
 PANIC_TEXT = ("every Assert terminator (overflow, division, bounds) and every call of an external routine from the "
               "deny-table (unwrap/expect/index/panic!/...) in functions reachable from the entry set is discharged by "
-              "a guard rule (CONST-SHIFT, CONST-DIV, NONZERO-DOM, CMP-DOM, LEN-DOM, MAP-GET, COMP-SOME, CONST-UUID, "
+              "a guard rule (CONST-SHIFT, CONST-DIV, NONZERO-DOM, CMP-DOM, LEN-DOM, MAP-GET, VARIANT-DOM, COMP-SOME, CONST-UUID, "
               "BSEARCH-IDX, INTERVAL), covered by a frozen one-reason justification whose required dominating guards "
               "are re-checked, or reported")
 EXT_ASSUME = ("external crates (std, byteorder, encoding_rs, uuid, cfb internals) are assumed not to panic except "
